@@ -172,6 +172,16 @@ def _loader_subs(tier):
                     'events': [ev]}
             subs.append(('loader-%s-%s' % (sname, '_'.join(map(str, ev))),
                          spec))
+    # start-up on a stored state that lists one instance under two servers
+    # (what a crash of the previous master, or an operator, can leave behind):
+    # Loader.restore_placements has to end with the instance on at most one
+    # server, and the first cycles must keep it that way
+    for sname, recs in [('r01_n', [[0, 1], []]), ('r01_1', [[0, 1], [1]]),
+                        ('r01_0', [[0, 1], [0]])]:
+        spec = {'level': 'loader', 'nservers': 2,
+                'apps': [{'recorded': r} for r in recs],
+                'events': [['none'], ['none']]}
+        subs.append(('loader-dup-%s' % sname, spec))
     return subs
 
 
@@ -181,11 +191,22 @@ def _loader_harness(S, spec):
     W = g2.base_store(S, spec)
     m = g2.new_master(W)
     g2.start(W, m)
-    for ev in spec['events']:
-        g2.apply_event(W, m, ev)
-        g2.cycle(W, m)
+    try:
+        for ev in spec['events']:
+            g2.apply_event(W, m, ev)
+            g2.cycle(W, m)
+            _model_views_agree(S, m)
+    except AssertionError as e:
+        # an assertion of the scheduler itself (Server.put: instance already
+        # there, ...) - the model lost track of a placement
+        import traceback
+        S.fail('C01:scheduler_assertion_failed',
+               {'error': traceback.format_exc()[-600:]})
     S.reach('scheduled')
-    S.reach('server_record_edited')
+    if spec['events'][0][0] == 'server_edit':
+        S.reach('server_record_edited')
+    else:
+        S.reach('started_on_duplicate_records')
     b = W.backend
     for sname, srv in m.servers.items():
         declared = b.get('/servers/' + sname)['memory']
@@ -200,6 +221,27 @@ def _loader_harness(S, spec):
     Wx = g1.World()
     Wx.S, Wx.cell, Wx.D = S, m.cell, 3
     g1.ri1(Wx)
+
+
+def _model_views_agree(S, m):
+    holders = {}
+    for sname, srv in m.servers.items():
+        for an in srv.apps:
+            holders.setdefault(an, []).append(sname)
+    for an, hs in holders.items():
+        S.check('C01:instance_on_two_servers', len(hs) == 1,
+                {'app': an, 'servers': hs})
+        app = m.cell.apps.get(an)
+        S.check('C01:server_lists_instance_whose_server_field_differs',
+                app is not None and app.server == hs[0],
+                {'app': an, 'listed_by': hs,
+                 'app.server': getattr(app, 'server', None)})
+    for an, app in m.cell.apps.items():
+        if app.server is not None:
+            S.check('C01:app_server_not_listing_it',
+                    an in m.servers[app.server].apps
+                    if app.server in m.servers else False,
+                    {'app': an, 'server': app.server})
 
 
 def budget(tier, name):
@@ -241,7 +283,8 @@ META = {
         'Cell.add_app', 'Cell.remove_app', 'SpreadStrategy',
         'PlacementFeasibilityTracker'],
     'reach_required': ['scheduled', 'eviction_put', 'restored_after_eviction',
-                       'server_record_edited', 'parsed'],
+                       'server_record_edited', 'parsed',
+                       'started_on_duplicate_records'],
 }
 
 
